@@ -13,6 +13,7 @@ C14_CLAUSES = {'PressurePartsNonNegative', 'FrictionClosedForm',
                'PressureLedgerAdvance', 'TotalIsSumOfPartsAndRegions',
                'EachGridCountedExactlyOnce', 'ReportedTotalIsSumOfSteps',
                'TotalEqualsClosedForm', 'PressureTablePrintsTheLedger',
+               'PressureDumpShowsTheLedger',
                'ActiveRegionContainsTheStep',
                'SweepRuns'}
 C15_CLAUSES = {'PeakFoldConsistent', 'PeakCoolantIsRunningMaximum',
@@ -60,6 +61,31 @@ def table_truth(case, nasm):
             if str(aid) in truth['power']:
                 power[i] = cases.asm_power_integral(truth, aid)
     return {'flow': flow, 'power': power}
+
+
+def read_pressure_dump(d, nasm):
+    """Per assembly, from pressure_drop.csv: the last dumped row [total,
+    friction, grids, gravity] and the row whose total differs most from the
+    sum of its parts [total, sum of parts] (Pa); 'unreadable' otherwise."""
+    import os
+    import numpy as np
+    f = os.path.join(d, 'pressure_drop.csv')
+    try:
+        arr = np.loadtxt(f, delimiter=',', ndmin=2)
+        out = []
+        for i in range(nasm):
+            rows = arr[arr[:, 0] == i]
+            if rows.shape[0] == 0 or rows.shape[1] < 7:
+                return 'unreadable'
+            last = rows[-1]
+            dev = np.abs(rows[:, 3] - (rows[:, 4] + rows[:, 5] + rows[:, 6]))
+            w = rows[int(np.argmax(dev))]
+            out.append([float(last[3]), float(last[4]), float(last[5]),
+                        float(last[6]), float(w[3]),
+                        float(w[4] + w[5] + w[6])])
+        return out
+    except BaseException:
+        return 'unreadable'
 
 
 def record(args):
@@ -113,7 +139,11 @@ def record(args):
             if crash is None and opts.get('dptable'):
                 from . import tables
                 ptab = tables.pressure_table(dassh, r) or 'unreadable'
-            cfg, ev = ob.events(tables_ok, ptab)
+            pdump = None
+            if (crash is None and opts.get('dpdump') and
+                    case.get('setup', {}).get('Dump', {}).get('pressure_drop')):
+                pdump = read_pressure_dump(str(d), len(r.assemblies))
+            cfg, ev = ob.events(tables_ok, ptab, pdump)
             if crash:
                 ev.insert(len(ev) - 1, crash)
             totals = [float(a.pressure_drop) for a in r.assemblies]
